@@ -415,6 +415,8 @@ def run_scenario(sc, chooser=None, seed=0, max_steps=6000):
                         sched.note("call", ti, "add_stop")
                         q.add(STOP, till=_never)
                         r = "ok"
+                        if not bool(ds.raw(q.closed, "_go")):
+                            st["viol"].append("C09: add(PLEASE_STOP) returned on thread %d with the queue still open" % ti)
                 except ds.SchedAbort:
                     raise
                 except Exception as e:
@@ -779,6 +781,9 @@ def monitors(sc, lines, st, outcome, stuck, final, closed):
                     viol.append("C08: producer %d is stranded although the queue has room (%d < %d)" % (ti, len(final), sc["max"]))
                 if op[0] in ("pop", "pop_till") and closed:
                     viol.append("C09: consumer %d is still blocked after close()" % ti)
+                if op[0] == "add_stop":
+                    viol.append("C09: thread %d is blocked in add(PLEASE_STOP) (queue %s, %d of max %d values): the stop marker closes the "
+                                "queue, it does not wait for room" % (ti, "closed" if closed else "still open", len(final), sc["max"]))
                 if op[0] in ("pop", "pop_till") and final:
                     viol.append("C07: consumer %d is blocked although the queue holds %s" % (ti, final))
                 if op[0] == "pop_till" and op[1] in sc["fire"]:
